@@ -4,7 +4,5 @@ import (
 	"bufio"
 )
 
-func runCorpus(prop string, out *bufio.Writer, st *Stats)  {}
-func raceMain(args []string)                             {}
-func allocsMain(args []string)                           {}
+func runCorpus(prop string, out *bufio.Writer, st *Stats)    {}
 func replayExtra(w *World, g *Kern, t []string, line string) {}
